@@ -297,6 +297,11 @@ func c07CloseRelease(c *h.Ctx) {
 		c.Inconclusive("foreign: hand did not settle")
 		return
 	}
+	brk := c.R.Intn(2) == 0
+	if brk {
+		// the level is a break as well: when the continue handler runs it would have to pause - but not a closed table
+		ss.S.TE.UpdateBlind(-1, 0, 0, 0, 0)
+	}
 	if variant == 2 {
 		ss.S.TE.CloseTable()
 		c.Feature("close-during-continue-delay")
@@ -321,6 +326,11 @@ func c07CloseRelease(c *h.Ctx) {
 		}
 		c.Violate(sig+"/during-continue-delay", "table closed/released during the continue delay but "+bad, map[string]interface{}{"cfg": cfg, "trace": ss.S.TraceTail(40)})
 		return
+	}
+	// (which status a closed table shows afterwards is not part of the statement: the engine's own continue step may
+	// still write its stand-by status over it; only hands and set-ups are judged)
+	if brk {
+		c.Feature("close-or-release-during-continue-delay-on-a-break")
 	}
 	c.Nontrivial()
 	c.FP("closerelease", variant, fmt.Sprintf("%+v", cfg))
@@ -437,6 +447,63 @@ func c07BlindsUnset(c *h.Ctx) {
 		}
 	}
 	c.Sample(map[string]interface{}{"kind": "blinds unset", "cfg": cfg})
+}
+
+// c07RefusedOpen: the first open is refused by the seat manager (only one player has sat in). The table must not
+// show a hand that does not exist (status opened / playing without a hand state or a raised game count); when the
+// others sit in, the hand the retry opens is hand 1.
+func c07RefusedOpen(c *h.Ctx) {
+	r := c.R
+	cfg := h.GenTable(r, h.GenOpts{MinSeats: 3, MaxSeats: 7, MinPlayers: 3, DeepOnly: true, Modes: []string{"ct", "cash"}})
+	s, err := h.NewSim(h.SimConfig{Setting: cfg.Setting(false), Interval: 0}, r.Int63())
+	if err != nil {
+		c.Inconclusive(err.Error())
+		return
+	}
+	for _, pl := range cfg.Players {
+		s.Reserve(pl.ID, pl.Seat, pl.Chips)
+	}
+	s.Join(cfg.Players[0].ID)
+	s.TE.StartTableGame()
+	e, ok := s.WaitFor(5*time.Second, func(e *h.Ev) bool { return e.Kind == h.EvSetup }, nil)
+	if !ok {
+		c.Inconclusive("no set-up")
+		return
+	}
+	s.SignalAll(h.SetupIDs(e.Setup))
+	if _, ok := s.WaitFor(5*time.Second, func(e *h.Ev) bool { return e.Kind == h.EvGateFire }, nil); !ok {
+		c.Inconclusive("gate did not fire")
+		return
+	}
+	time.Sleep(time.Duration(300+r.Intn(1200)) * time.Millisecond)
+	w := func() interface{} { return map[string]interface{}{"cfg": cfg, "trace": s.TraceTail(30)} }
+	t := s.TE.GetTable()
+	if rk := statusRank(t.State.Status); (rk >= 1 && rk <= 3) && (t.State.GameState == nil || t.State.GameCount == 0) {
+		c.Violate("C07/status-of-a-hand-without-a-hand", fmt.Sprintf("the first open was refused (one player seated in) and the table shows status %s with game count %d and hand state present=%v", t.State.Status, t.State.GameCount, t.State.GameState != nil), w())
+		return
+	}
+	for _, pl := range cfg.Players[1:] {
+		s.TE.PlayerJoin(pl.ID)
+		time.Sleep(400 * time.Microsecond)
+	}
+	var oe *h.Ev
+	s.WaitFor(9*time.Second, func(e *h.Ev) bool {
+		if e.Kind == h.EvTable && e.T != nil && e.T.State.Status == pt.TableStateStatus_TableGameOpened {
+			oe = e
+		}
+		return oe != nil
+	}, nil)
+	if oe != nil {
+		if oe.T.State.GameCount != 1 {
+			c.Violate("C07/game-count-not-raised-by-one/opened-by-retry", fmt.Sprintf("the first hand, opened by the retry after the others had sat in, carries game count %d", oe.T.State.GameCount), w())
+			return
+		}
+		c.Feature("opened-by-retry-after-late-sitters")
+	}
+	c.Feature("first-open-refused-by-seat-manager")
+	c.Nontrivial()
+	c.FP("refused-open", fmt.Sprintf("%+v", cfg))
+	c.Sample(map[string]interface{}{"kind": "first open refused by the seat manager, others sit in during the wait", "cfg": cfg, "opened": oe != nil})
 }
 
 // c07NoOpenAfterRetry: the table was closed / released and the blind level arrived while the engine was waiting to
@@ -585,7 +652,7 @@ func init() {
 		},
 		RequiredFeatures: func(tier string) []string {
 			f := []string{"lifecycle:interval=0", "lifecycle:interval=1", "close-after-set-up", "release-after-set-up", "close-during-continue-delay", "release-during-continue-delay", "break-after-set-up", "double-fire", "paused-after-hand"}
-			f = append(f, "blinds-unset", "opened-by-retry-after-blinds-arrived", "closed-during-open-retry", "released-during-open-retry", "pause-mid-hand-then-set-up")
+			f = append(f, "blinds-unset", "opened-by-retry-after-blinds-arrived", "closed-during-open-retry", "released-during-open-retry", "first-open-refused-by-seat-manager", "close-or-release-during-continue-delay-on-a-break", "pause-mid-hand-then-set-up")
 			return f
 		},
 		CaseTimeout: 240e9,
@@ -595,6 +662,8 @@ func init() {
 			switch {
 			case k == 15 && c.Case%32 == 15:
 				c07BlindsUnset(c)
+			case k == 15:
+				c07RefusedOpen(c)
 			case k == 14:
 				c07PauseMidHand(c)
 			case k < 8:
